@@ -832,11 +832,13 @@ FINISH:
 	// Finally, re-take the lock, mark sent and remove any entries from our
 	// message that we've decided to cancel at the last minute.
 	mq.wllock.Lock()
+	removed := false
 	for i, e := range peerEntries[:sentPeerEntries] {
 		if !mq.peerWants.markSent(e) {
 			// It changed.
 			mq.msg.Remove(e.Cid)
 			peerEntries[i].Cid = cid.Undef
+			removed = true
 		}
 	}
 
@@ -844,6 +846,27 @@ FINISH:
 		if !mq.bcstWants.markSent(e) {
 			mq.msg.Remove(e.Cid)
 			bcstEntries[i].Cid = cid.Undef
+			removed = true
+		}
+	}
+
+	if removed {
+		// A CID that is in both lists has a single entry in the message. An
+		// entry removed because one list changed may still be wanted by the
+		// other list: add it again for every want that was marked sent.
+		for _, e := range peerEntries[:sentPeerEntries] {
+			if e.Cid.Defined() {
+				mq.msg.AddEntry(e.Cid, e.Priority, e.WantType, true)
+			}
+		}
+		for _, e := range bcstEntries[:sentBcstEntries] {
+			if e.Cid.Defined() {
+				wantType := pb.Message_Wantlist_Have
+				if !supportsHave {
+					wantType = pb.Message_Wantlist_Block
+				}
+				mq.msg.AddEntry(e.Cid, e.Priority, wantType, false)
+			}
 		}
 	}
 
